@@ -20,6 +20,7 @@ import (
 	"go/token"
 	"go/types"
 	"os"
+	"os/exec"
 	"path/filepath"
 	"sort"
 	"strings"
@@ -50,8 +51,17 @@ func (l *loader) Import(path string) (*types.Package, error) {
 	if strings.HasPrefix(path, modPath+"/") {
 		return l.load(strings.TrimPrefix(path, modPath+"/"))
 	}
-	// external and standard-library packages are opaque: an empty, complete package.  Anything
-	// that needs them fails to type-check and is simply not reported as a fact.
+	// a few external packages define protocol sizes (ML-KEM, X25519): load them from the module
+	// cache the same permissive way
+	for _, pre := range []string{"github.com/cloudflare/circl/", "golang.org/x/crypto/curve25519"} {
+		if strings.HasPrefix(path, pre) {
+			if p, err := l.loadExternal(path); err == nil && p != nil {
+				return p, nil
+			}
+		}
+	}
+	// other external and standard-library packages are opaque: an empty, complete package.
+	// Anything that needs them fails to type-check and is simply not reported as a fact.
 	name := path[strings.LastIndex(path, "/")+1:]
 	p := types.NewPackage(path, name)
 	p.MarkComplete()
@@ -59,12 +69,28 @@ func (l *loader) Import(path string) (*types.Package, error) {
 	return p, nil
 }
 
+func (l *loader) loadExternal(path string) (*types.Package, error) {
+	cmd := exec.Command("go", "list", "-f", "{{.Dir}}", path)
+	cmd.Dir = l.repo
+	out, err := cmd.Output()
+	if err != nil {
+		return nil, err
+	}
+	dir := strings.TrimSpace(string(out))
+	if dir == "" {
+		return nil, fmt.Errorf("no directory for %s", path)
+	}
+	return l.loadDir(path, dir, "ext:"+path)
+}
+
 func (l *loader) load(rel string) (*types.Package, error) {
-	path := modPath + "/" + rel
+	return l.loadDir(modPath+"/"+rel, filepath.Join(l.repo, rel), rel)
+}
+
+func (l *loader) loadDir(path, dir, rel string) (*types.Package, error) {
 	if p, ok := l.pkgs[path]; ok {
 		return p, nil
 	}
-	dir := filepath.Join(l.repo, rel)
 	ents, err := os.ReadDir(dir)
 	if err != nil {
 		return nil, err
